@@ -253,11 +253,6 @@ def query_traversal(node, callback, is_table=False, is_target=False, parent_quer
             if node_out is not None:
                 node.table = node_out
 
-        if node.where is not None:
-            node_out = query_traversal(node.where, callback, parent_query=node)
-            if node_out is not None:
-                node.where = node_out
-
         if node.update_columns is not None:
             changes = {}
             for k, v in node.update_columns.items():
@@ -271,6 +266,11 @@ def query_traversal(node, callback, is_table=False, is_target=False, parent_quer
             node_out = query_traversal(node.from_select, callback, parent_query=node)
             if node_out is not None:
                 node.from_select = node_out
+
+        if node.where is not None:
+            node_out = query_traversal(node.where, callback, parent_query=node)
+            if node_out is not None:
+                node.where = node_out
 
     elif isinstance(node, ast.CreateTable):
         array = []
